@@ -78,3 +78,27 @@ func lemma_C13_chain(next uint8, b []byte) {
 	var c IKEPayloadContainer
 	_ = contract_ChainDecode(&c, next, b)
 }
+
+// The two clauses together, on one chain shape: an implemented payload whose critical
+// flag is SET (must be ignored) followed by a NON-critical unsupported payload (must
+// still be skipped) followed by another implemented payload.  Nothing an earlier
+// payload's flag did may reach the decision about a later one: the per-iteration steps
+// above quantify over the loop-head state of the walker's own variables; this lemma pins
+// the history-free behaviour end to end (seeded change C13-5: a header object reused
+// across iterations whose Critical field is only ever set).
+//
+//verif:bounded chain of exactly three payloads (one-octet Nonce with any octet 1 incl. critical / unsupported non-critical, any type code, three-octet body / one-octet Nonce)
+//verif:unroll (*message.IKEPayloadContainer).Decode#loop1 4 assert
+func lemma_C13_earlier_flag_does_not_stick(octet1a, typ, octet1u, x1, x2, u1, u2, u3 uint8) {
+	verifAssume((typ >= 1 && typ <= 32) || typ >= 49)
+	b := make([]byte, 17)
+	b[0], b[1], b[2], b[3], b[4] = typ, octet1a|0x80, 0, 5, x1
+	b[5], b[6], b[7], b[8], b[9], b[10], b[11] = uint8(TypeNiNr), octet1u&0x7f, 0, 7, u1, u2, u3
+	b[12], b[13], b[14], b[15], b[16] = 0, 0, 0, 5, x2
+	var c IKEPayloadContainer
+	verifAssert(c.Decode(uint8(TypeNiNr), b) == nil, "C13/Chain/non-critical-unsupported-skipped-after-a-critical-flagged-implemented-payload")
+	verifAssert(len(c) == 2, "C13/Chain/message-decodes-as-the-same-message-without-the-unsupported-payload")
+	q1, ok1 := c[0].(*Nonce)
+	q2, ok2 := c[1].(*Nonce)
+	verifAssert(ok1 && ok2 && len(q1.NonceData) == 1 && q1.NonceData[0] == x1 && len(q2.NonceData) == 1 && q2.NonceData[0] == x2, "C13/Chain/neighbours-of-the-skipped-payload-recovered")
+}
